@@ -740,3 +740,36 @@ _st(JM, 'check_occultation',
 _st(JM, 'check_eclipse',
     lambda g: (None, [g.f(-30, 30), g.f(-30, 30), g.f(-30, 30)], {}) if g.rng.random() < 0.6 else
     (None, [], {"epoch": g.ep(1900, 2100), "i_sat": g.i(1, 4)}), 0.2, 20, 'JupiterMoons')
+
+
+# ------------------------------------------------------------------ copy constructors, as entries of their own
+def _copy_of(kind):
+    def gen(g):
+        e = g.any_of(kind)
+        if e is None:
+            return None
+        g.probes.append('copy_ctor')
+        return None, [e], {}
+    return gen
+
+
+add('Angle.__init__#copy', 'new', 'Angle.Angle', 'capture', _copy_of('Angle'), 0.8, 30, 'Angle')
+add('Epoch.__init__#copy', 'new', 'Epoch.Epoch', 'capture', _copy_of('Epoch'), 0.8, 120, 'Epoch')
+add('Interpolation.__init__#copy', 'new', I, 'capture', _copy_of('Interpolation'), 0.8, 30, 'Interpolation')
+add('CurveFitting.__init__#copy', 'new', C, 'capture', _copy_of('CurveFitting'), 0.6, 30, 'CurveFitting')
+
+
+def _copy_set(kind):
+    def gen(g):
+        r = g.mutable(kind)
+        e = g.any_of(kind)
+        if r is None or e is None or r == e:
+            return None
+        return r, [e], {}
+    return gen
+
+
+add('Angle.set#copy', 'meth', 'set', 'mutator_capture', _copy_set('Angle'), 0.4, 30, 'Angle')
+add('Epoch.set#copy', 'meth', 'set', 'mutator_capture', _copy_set('Epoch'), 0.4, 120, 'Epoch')
+add('Interpolation.set#copy', 'meth', 'set', 'mutator_capture', _copy_set('Interpolation'), 0.4, 30, 'Interpolation')
+add('CurveFitting.set#copy', 'meth', 'set', 'mutator_capture', _copy_set('CurveFitting'), 0.3, 30, 'CurveFitting')
